@@ -2,7 +2,10 @@
 
 Spec: spec/Matchers.tla (UTF-8 lexer + parser automaton of matcher/parse, classic parser of
 pkg/labels, Matcher.String, the three modes of matcher/compat, over an abstract alphabet) and
-spec/Labels.tla (match semantics).  MC: spec/mc/MC_Matchers*.cfg (termination, round trip,
+spec/MatchersSem.tla (match semantics: '=' / '!=' on whole strings, '=~' / '!~' as the fully anchored
+regular expression, with an executable regexp fragment over character sequences in which '.' is not
+the line feed, '^' / '$' are the ends of the text and a leading (?s) is the only flag; Labels.tla is
+shown to be its restriction to single-line values).  MC: spec/mc/MC_Matchers*.cfg (termination, round trip,
 fallback law, semantic laws over all strings up to length L).  Gen: Gen_Matchers prints every
 input string with the result the specification expects from every entry point, every matcher of
 the product with its printed form, and the semantic cases; harness/c16 TestReplay gives them to
@@ -22,11 +25,11 @@ CLASS_TEXT = {
     "fallback": "fallback law broken on the real code",
     "mode": "compat mode selection (InitFromFlags) inconsistent",
     "panic": "parser panics or does not return",
-    "sem": "Matcher(s).Matches differs from Labels.tla",
-    "sem-route": "route matching differs from Labels.tla",
-    "sem-inhibit": "inhibition rule matching differs from Labels.tla",
-    "sem-silence": "silence matching differs from Labels.tla",
-    "sem-api": "API filter differs from Labels.tla",
+    "sem": "Matcher(s).Matches differs from MatchersSem.tla (fully anchored regexp, missing label = \"\")",
+    "sem-route": "route matching differs from MatchersSem.tla",
+    "sem-inhibit": "inhibition rule matching differs from MatchersSem.tla",
+    "sem-silence": "silence matching differs from MatchersSem.tla",
+    "sem-api": "API filter differs from MatchersSem.tla",
 }
 
 
@@ -88,7 +91,7 @@ def _judge(r, tag, v, wd, gaps):
     which are collected in gaps and judged once by _judge_gaps."""
     lang = [m for m in r["mismatches"] if m.get("class") == "lang"]
     if lang:
-        raise vlib.Inconclusive("Labels!Lang disagrees with Go regexp (the specification must be corrected): %s" % lang[0]["what"])
+        raise vlib.Inconclusive("MatchersSem!Lang disagrees with Go regexp (the specification must be corrected): %s" % lang[0]["what"])
     shown = {}
     for m in r["mismatches"]:
         cl = m.get("class", "?")
@@ -197,9 +200,14 @@ def run(tier, v):
     # vacuity: every part of the statement was exercised
     need = {"kind_p": 10000, "inputs_accepted_by_some_parser": 500, "nontrivial": 100, "inputs_parsers_disagree": 2,
             "inputs_classic_only": 50, "roundtrips": 10000, "roundtrips_classic": 1000, "matchers_printed": 10000,
-            "sem_cases": 1000, "sem_true": 100, "lang_pairs": 28, "route_cases": 1000, "route_true": 100,
-            "inhibit_cases": 1000, "inhibit_true": 100, "silence_cases": 500, "silence_true": 100,
-            "api_filter_cases": 300, "api_filter_true": 50, "global_mode_inputs": 10000, "runes_matchers": 50000}
+            "sem_cases": 5000, "sem_true": 1000, "lang_pairs": 100, "route_cases": 5000, "route_true": 1000,
+            "inhibit_cases": 5000, "inhibit_true": 1000, "silence_cases": 3000, "silence_true": 500,
+            "api_filter_cases": 1500, "api_filter_true": 300, "global_mode_inputs": 10000, "runes_matchers": 50000,
+            # multi-line values and '.' patterns: (pattern, value) pairs with a line feed, pairs whose verdict
+            # depends on '.' not matching it, matcher lists evaluated on label sets with a multi-line value
+            "lang_lf_pairs": 50, "lang_dot_excludes_lf": 15, "sem_lf_lists": 2000, "sem_lf_dot_lists": 1000,
+            # the same lists printed into a configuration file and loaded by config.Load
+            "config_files_loaded": 200, "config_cases": 5000, "config_true": 1000, "runes_extra_values": 20}
     short = {k: (cnt.get(k, 0), n) for k, n in need.items() if cnt.get(k, 0) < n}
     if short and not v.violations:
         raise vlib.Inconclusive("too few cases reached (got, needed): %s" % short)
@@ -227,11 +235,24 @@ def run(tier, v):
                    if thorough else
                    "quick: all strings up to length 4 over 17 symbol classes and up to length 3 over all 21, values up to length 3 x 3-13 names, names up to length 2 x 13 values; ")
                   + "%d simulated inputs (printed matcher or list + up to 3 random edits, length up to ~40); each class instantiated by 2 exact and 2 law-only representatives; "
-                    "semantics: %d (matcher set, label set) pairs over the Labels.tla universe" % (nsim, cnt.get("sem_cases", 0)),
+                    "semantics: %d (matcher set, label set) pairs over the MatchersSem.tla universe: 8 values (\"\", x, y, xy and the multi-line "
+                    "values LF, x LF y, x LF, LF y) x 18 patterns (x|y .* .+ x.* x y? \"\" . x.y .*y (?s).+ (?s).* ^x$ x$ x<LF>y x\\ny (.|\\n)* .+|x<LF>) "
+                    "x 3 names x 4 operators on 13 label sets (5 with multi-line values), pairs of 10 + 12 core matchers as AND-list and as OR of lists; "
+                    "%d (pattern, value) pairs cross-checked against Go regexp ^(?:...)$, of which %d have a line feed in the value and %d are decided by "
+                    "'.' not matching the line feed; every list also printed into a configuration file (%d files loaded by config.Load) and asked "
+                    "through the loaded route and inhibition rule" % (
+                        nsim, cnt.get("sem_cases", 0), cnt.get("lang_pairs", 0), cnt.get("lang_lf_pairs", 0),
+                        cnt.get("lang_dot_excludes_lf", 0), cnt.get("config_files_loaded", 0)),
     }
     assumptions = [
         "input strings longer than the bounds are not enumerated (sampled only near printed matchers)",
-        "regular expression syntax: only literals, escapes and {n,m} (Matchers!RegexOK) in parser inputs; languages of 7 patterns over 4 values in the semantics (cross-checked against Go regexp with ^(?:...)$)",
+        "regular expression syntax in parser inputs: only literals, escapes and {n,m} (Matchers!RegexOK); in the semantics: the fragment of MatchersSem.tla "
+        "(literals incl. a raw line feed, '.', '^', '$', \\n and escaped punctuation, * + ?, groups, alternation, a leading (?s)) with '.' excluding the line feed "
+        "and '$' matching only at the end of the text, as Go regexp without the s and m flags; every (pattern, value) pair of the universe is cross-checked against "
+        "Go regexp ^(?:...)$ and (?s)^(?:...)$; character classes, counted / non-greedy repetition, other flags ((?m), (?i), (?U)) and values with CR or other "
+        "control characters are outside the semantic universe (the round trip of such values and patterns is covered by TestRunes)",
+        "label values in the semantic universe are built from x, y and the line feed (alone, embedded, trailing, leading); longer multi-line values are not enumerated",
+        "API filter cases leave out label sets that are empty or have an empty value (an alert cannot carry them); multi-line values take part",
         "strconv.Unquote escapes other than \\n \\\\ \\\" (octal, \\x, \\u, \\a..\\v) are reached only through the law-only representatives, not compared with the specification",
         "two recorded findings (known_findings.d/C16.json) are excused only for their exact class and only while listed open: C16-D1-FALLBACK-BRACE (compat.Matcher rejects a leading '{' / trailing '}' input that the classic parser accepts) and C16-D2-EMPTY-NAME (a matcher with the empty name does not survive print + parse)",
         "the compat mode is package state: modes are exercised one after the other, concurrency of InitFromFlags is not explored",
